@@ -6,9 +6,11 @@
 package verifhook
 
 import (
+	"errors"
 	"fmt"
 	"os"
 	"runtime"
+	"strings"
 )
 
 // EmitFn, if set, receives named events with integer arguments.
@@ -27,6 +29,18 @@ func Point(name string) {
 	if f := PointFn; f != nil {
 		f(name)
 	}
+}
+
+// ErrClass turns the result of a wrap or unwrap call into an event argument:
+// 1 no error, 2 the "incorrect identity" sentinel (or an error wrapping it), 3 any other error.
+func ErrClass(err, incorrect error) int {
+	switch {
+	case err == nil:
+		return 1
+	case incorrect != nil && errors.Is(err, incorrect):
+		return 2
+	}
+	return 3
 }
 
 // When VERIF_TRACE names a file, every event is appended to it as one JSON line with the
@@ -53,6 +67,12 @@ func init() {
 			line = fmt.Sprintf(`{"ev":%q,"pid":%d,"g":%d,"ctr":%d,"fin":%d,"len":%d}`, name, pid, g, args[0], args[1], args[2])
 		case name == "scrypt.derive" && len(args) == 1:
 			line = fmt.Sprintf(`{"ev":%q,"pid":%d,"g":%d,"logN":%d}`, name, pid, g, args[0])
+		case strings.HasPrefix(name, "age."):
+			a := make([]string, len(args))
+			for i, v := range args {
+				a[i] = fmt.Sprint(v)
+			}
+			line = fmt.Sprintf(`{"ev":%q,"pid":%d,"g":%d,"a":[%s]}`, name, pid, g, strings.Join(a, ","))
 		default:
 			return
 		}
